@@ -63,10 +63,32 @@ def _is_state_attr(ci, attr):
     return not attr.startswith("_")
 
 
+def _bound_to_element_of(fn, stmt, name, param):
+    """Is `name`, at statement `stmt`, the loop variable of an enclosing `for ... in zip(..., param, ...)` (same position) or
+    `for name in param`?"""
+    for loop in ast.walk(fn):
+        if not isinstance(loop, ast.For) or not any(n is stmt for n in ast.walk(loop)):
+            continue
+        it, tg = loop.iter, loop.target
+        if isinstance(tg, ast.Name) and tg.id == name and isinstance(it, ast.Name) and it.id == param:
+            return True
+        if isinstance(it, ast.Call) and isinstance(it.func, ast.Name) and it.func.id == "zip" and isinstance(tg, (ast.Tuple, ast.List)) \
+                and len(tg.elts) == len(it.args):
+            for t, a in zip(tg.elts, it.args):
+                if isinstance(t, ast.Name) and t.id == name and isinstance(a, ast.Name) and a.id == param:
+                    # the name must not be rebound between the loop head and the store
+                    rebound = [n for n in ast.walk(loop) if isinstance(n, ast.Assign) and any(isinstance(x, ast.Name) and x.id == name for x in n.targets)]
+                    return not rebound
+    return False
+
+
 def sanction(fi, node, how):
     import re
     if fi.qualname == "Signal.__array_ufunc__" and how.startswith("out= argument"):
         return "explicit NumPy out=/in-place protocol: the caller names the signal as the target"
+    m0 = re.match(r"attribute store '(\w+)\._data = \.\.\.'", how)
+    if fi.qualname == "Signal.__array_ufunc__" and m0 and _bound_to_element_of(fi.node, node, m0.group(1), "out"):
+        return "explicit NumPy out=/in-place protocol: the stored-into object is an element of the out= tuple the caller named as the target"
     m = re.match(r"attribute store 'self\.(\w+) = \.\.\.'", how)
     if m and fi.cls is not None and fi.kind in ("method", "property") and not _is_state_attr(fi.cls, m.group(1)):
         return ("private derived attribute (memoised value / flag), not part of the object's observable state; its coherence with the state "
